@@ -43,6 +43,10 @@ ASSUMPTIONS = [
     "value-class acceptance (_check_value_class) is modelled on the implementation's per-class verdicts "
     "(Model/ValValue.v, correspondence on every value tag met); the expected verdict of the ORACLE is computed from the "
     "XML reading + class_regex.json with python re, independently of hed-python",
+    "definition NAMES are an input dimension of the generator (ASCII, plain non-ASCII, letters whose lower() differs "
+    "from casefold(); modern-character schemas only) and the definitions reach the validator through two entry points "
+    "(DefinitionDict via HedString.validate, strings via HedValidator) whose verdicts must coincide; the lookup itself "
+    "is a fact of the definition layer (tf_def_known / tf_def_contents), so this is tested, not proved, at C01 level",
     "history independence of a validator object is a theorem of the (stateless) model and a TESTED clause on the "
     "implementation: sequences of 2-6 annotations on one HedValidator must give the verdicts of fresh validators and "
     "of the model's vrun",
@@ -99,10 +103,11 @@ def ctx(key, defs_extra=False):
         V = G.Vocab(X.schema_for_use(key, allsch))
         dd = None
         if V.has_defs:
-            dd = DefinitionDict(G.DEFS + (G.DEFS_F1 if defs_extra else []), sch)
+            def_strings = G.DEFS + (G.NAME_DEFS if V.modern else []) + (G.DEFS_F1 if defs_extra else [])
+            dd = DefinitionDict(def_strings, sch)
             if dd.issues:
                 raise RuntimeError(f"definitions rejected for {key}: {dd.issues[:2]}")
-        _W[k] = {"schema": sch, "defs": dd,
+        _W[k] = {"schema": sch, "defs": dd, "def_strings": def_strings if V.has_defs else None,
                  "required": sorted(x.casefold() for x in sch.get_tags_with_attribute(HedKey.Required)),
                  "unique": sorted(x.casefold() for x in sch.get_tags_with_attribute(HedKey.Unique)),
                  "modern": bool(sch.schema_83_props), "modern_xml": V.modern}
@@ -222,6 +227,14 @@ def impl_text(c, text, ph, shared=None):
         r["kinds"] = sorted(str(i.get("_kind")) for i in iss)
     except Exception as e:  # noqa
         r["exn"] = type(e).__name__
+    if c.get("def_strings") and "def" in text.casefold():
+        # second entry point: the definitions handed to HedValidator as strings, the annotation parsed without them
+        try:
+            v2 = HedValidator(c["schema"], def_dicts=list(c["def_strings"]))
+            iss = v2.validate(HedString(text, c["schema"]), allow_placeholders=ph)
+            r["alt"] = sorted((i["code"], int(i["severity"])) for i in iss)
+        except Exception as e:  # noqa
+            r["alt"] = "raises " + type(e).__name__
     if shared is not None:
         try:
             iss = shared.validate(HedString(text, c["schema"], c["defs"]), allow_placeholders=ph)
@@ -446,6 +459,10 @@ def oracle(case, r, res, cc=None):
         res.report("two-phase", cc, f"basic phase has an error but validate returned {r['issues']} instead of "
                                     f"{r['basic']}")
         return False
+    if "alt" in r and r["alt"] != r["issues"]:
+        res.report("entry-point-independent", cc, f"definitions given as strings to HedValidator: {r['alt']}; as a "
+                                                  f"DefinitionDict via HedString.validate: {r['issues']}")
+        return False
     want = list(case.get("expect_all") or ([case["expect"]] if case.get("expect") else []))
     if not want:
         if errs:
@@ -505,6 +522,20 @@ def value_and_sequence_cases(tier, seed, keys, plain_cases):
                                  + ":accepted_by_%d" % meta["accepted_by"]))
         if not V.has_defs:
             continue
+        if V.modern:
+            for item, exp, rule in G.name_cases(rng, V, 60 if tier == "quick" else 300):
+                ph = rng.random() < 0.5
+                tree = G.Builder(rng, V, ph).tree(rng.randint(0, 2)) if rng.random() < 0.6 else []
+                tgt = tree
+                if isinstance(item, str) and tree and rng.random() < 0.3:
+                    grp = [x for x in tree if isinstance(x, list) and not any(
+                        isinstance(y, str) and y.split("/")[0].casefold() in G.SPECIAL_NAMES for y in x)]
+                    tgt = rng.choice(grp) if grp else tree
+                tgt.insert(rng.randint(0, len(tgt)), item)
+                undeclared = rule == "def_name_undeclared"
+                out.append(dict(schema=key, text=G.render(tree, rng), ph=ph,
+                                expect=("DEF_EXPAND_INVALID" if isinstance(item, list) else "DEF_INVALID")
+                                if undeclared else None, rule=rule))
         pairs = G.def_case_pairs(rng, V)
         mine = [c for c in plain_cases if c["schema"] == key and "seq" not in c and c.get("expect") != "*"
                 and not c.get("defs_extra")]
